@@ -161,10 +161,14 @@ func decodePacked6BitAscii(b []byte, c int) (string, int, error) {
 }
 
 func decode8BitAsciiLatin1(b []byte, c int) (string, int, error) {
-	if len(b) < 2 {
-		// it is unclear why this limitation exists, but it's plain to
-		// see in the specification
-		return "", 0, fmt.Errorf("at least 2 bytes of data must be present; got %v bytes", len(b))
+	// "At least two bytes of data must be present when this type is used.
+	// Therefore, the length (number of data bytes) will be >1 if data is
+	// present, 0 if data is not present. A length of 1 is reserved." It is
+	// unclear why this limitation exists, but note it constrains the encoded
+	// length, not the number of bytes that happen to follow: an empty string at
+	// the very end of a record is valid.
+	if c == 1 {
+		return "", 0, fmt.Errorf("at least 2 bytes of data must be present; a length of 1 is reserved")
 	}
 
 	// bounds check to ensure the slicing below does not panic
